@@ -121,6 +121,7 @@ fn main() {
     let arg = |name: &str| args.iter().position(|a| a == name).and_then(|i| args.get(i + 1)).cloned();
     let tables_out = arg("--tables");
     let ranges_out = arg("--ranges");
+    let hl_out = arg("--hl-out");
     let threads: usize = arg("--threads").and_then(|s| s.parse().ok()).unwrap_or(16);
     let seed: u64 = std::env::var("VERIF_SEED").ok().and_then(|s| s.parse().ok()).unwrap_or(1);
     let cases: Vec<Value> = std::io::stdin().lock().lines().filter_map(|l| {
@@ -132,10 +133,12 @@ fn main() {
     let results = Arc::new(Mutex::new(Vec::<Value>::new()));
     let tables = Arc::new(Mutex::new(Vec::<Value>::new()));
     let range_recs = Arc::new(Mutex::new(std::collections::BTreeSet::<String>::new()));
+    let hl_recs = Arc::new(Mutex::new(Vec::<Value>::new()));
+    let want_hl = hl_out.is_some();
     let stats = Arc::new(Mutex::new((0u64, 0u64, 0u64, Vec::<Value>::new()))); // programs, queries, shadowing programs, samples
     let mut hs = vec![];
     for _ in 0..threads {
-        let (cases, next, results, tables, range_recs, stats) = (cases.clone(), next.clone(), results.clone(), tables.clone(), range_recs.clone(), stats.clone());
+        let (cases, next, results, tables, range_recs, stats, hl_recs) = (cases.clone(), next.clone(), results.clone(), tables.clone(), range_recs.clone(), stats.clone(), hl_recs.clone());
         let want_tables = tables_out.is_some();
         hs.push(std::thread::Builder::new().stack_size(32 << 20).spawn(move || loop {
             let ci = next.fetch_add(1, Ordering::Relaxed);
@@ -239,6 +242,51 @@ fn main() {
                             "hl": o.hl.iter().map(|k| k.json()).collect::<Vec<_>>(), "ctx": t.ctx.last().cloned().unwrap_or_default()}));
                     }
                 }
+                // ---- C19 (second half): which identifiers are highlighted, and with which tag
+                {
+                    let hl = a.syntax_highlight(M1, None).unwrap();
+                    queries += 1;
+                    let items = case["items"].as_array().cloned().unwrap_or_default();
+                    let type_base = items.iter().position(|it| it["k"] == "type").map(|i| 1001 + i as u64);
+                    let is_fn_item = |g: u64| g >= 1001 && g < 1100 && items.get((g - 1001) as usize).map_or(false, |it| it["k"] == "fn");
+                    let is_ctor = |g: u64| type_base.map_or(false, |b| g == b + 100 || g == b + 200) || g == 2003 || g == 2004;
+                    for t in prog.toks.iter() {
+                        // expectation: Some(Some(tag)) / Some(None) = must not be highlighted / None = not decided here
+                        let exp: Option<Option<&str>> = match t.r.as_str() {
+                            "ref" | "qref" | "pref" => {
+                                // `m2.p` with a private p: glas navigates to (and highlights) the private function; the
+                                // specification leaves inaccessible names undecided, as for go-to-definition
+                                if t.tg == 0 && t.r == "qref" { None }
+                                else if t.tg == 0 { Some(None) }
+                                else if is_fn_item(t.tg) || t.tg == 2001 || t.tg == 2002 { Some(Some("Function")) }
+                                else if is_ctor(t.tg) { Some(Some("Constructor")) }
+                                else if t.tg < 1000 { None }          // locals: type-dependent, decided by the Typing programs
+                                else { Some(None) }
+                            }
+                            "def" => if is_ctor(t.tg) { Some(Some("Constructor")) } else { Some(None) },
+                            "modref" | "pmodref" | "tmodref" => Some(Some("Module")),
+                            "kw" | "label" | "plabel" | "field" | "fieldalt" | "tref" | "qtref" | "spreaddef" | "altdef" | "impname" | "impalias" | "modpath" | "moddef" => Some(None),
+                            _ => None,
+                        };
+                        let got: Option<String> = hl.iter().find(|h| usize::from(h.range.start()) == t.start && usize::from(h.range.end()) == t.end).map(|h| format!("{:?}", h.tag));
+                        if let Some(e) = exp {
+                            if e.map(|x| x.to_string()) != got {
+                                local.push(json!({"kind": "mismatch", "prop": "C19", "features": {"what": "highlight tag", "role": t.r, "expected": e, "got": got, "inner": t.ctx.last().cloned().unwrap_or_default()},
+                                    "detail": {"case": case, "text": prog.text, "token": {"idx": t.idx, "text": t.t, "offset": t.start}}}));
+                            }
+                        }
+                    }
+                    if want_hl && ci % 25 == 0 {
+                        hl_recs.lock().unwrap().push(json!({"text": prog.text, "hl": hl.iter().map(|h| json!([u32::from(h.range.start()), u32::from(h.range.end()), format!("{:?}", h.tag)])).collect::<Vec<_>>()}));
+                    }
+                    for h in &hl {
+                        ranges.push((M1.0, h.range.start().into(), h.range.end().into()));
+                        if !prog.toks.iter().any(|t| t.start == usize::from(h.range.start()) && t.end == usize::from(h.range.end())) {
+                            local.push(json!({"kind": "mismatch", "prop": "C19", "features": {"what": "highlight is not an identifier token"},
+                                "detail": {"case": case, "text": prog.text, "range": format!("{:?}", h.range)}}));
+                        }
+                    }
+                }
                 // ---- C20 facts: every reported range with the facts a monitor needs
                 let texts = [prog.text.as_str(), LIB_TEXT];
                 let mut rr = range_recs.lock().unwrap();
@@ -295,6 +343,12 @@ fn main() {
     if let Some(p) = tables_out {
         let mut f = std::io::BufWriter::new(std::fs::File::create(p).unwrap());
         for t in tables.lock().unwrap().iter() {
+            writeln!(f, "{t}").unwrap();
+        }
+    }
+    if let Some(p) = hl_out {
+        let mut f = std::io::BufWriter::new(std::fs::File::create(p).unwrap());
+        for t in hl_recs.lock().unwrap().iter() {
             writeln!(f, "{t}").unwrap();
         }
     }
